@@ -40,6 +40,7 @@ type WL struct {
 	SubGroups      []schedv2alpha2.SubGroup
 	Topology       *schedv2alpha2.TopologyConstraint
 	LastStart      string
+	CreatedRank    int    // if non-zero: the pod group's creation rank (seconds after Epoch) instead of the builder's order
 	Tag            string // template name (kept as annotation verif/tag; lets findings name workloads stably)
 }
 
@@ -78,8 +79,12 @@ func (b *Builder) Workload(wl WL) *Builder {
 	if mm == 0 {
 		mm = 1
 	}
+	pgRank := b.rank
+	if wl.CreatedRank != 0 {
+		pgRank = wl.CreatedRank
+	}
 	b.W.PodGroups = append(b.W.PodGroups, MkPodGroup(PGOpt{Name: wl.Name, Queue: wl.Queue, MinMember: mm, PriorityClass: pc,
-		Preemptibility: wl.Preemptibility, Rank: b.rank, SubGroups: wl.SubGroups, Topology: wl.Topology, LastStart: wl.LastStart,
+		Preemptibility: wl.Preemptibility, Rank: pgRank, SubGroups: wl.SubGroups, Topology: wl.Topology, LastStart: wl.LastStart,
 		Annotations: map[string]string{"verif/tag": wl.Tag}}))
 	for i, ps := range wl.Pods {
 		b.rank++
